@@ -655,7 +655,11 @@ class SymDF:
                 if kwargs.get("inplace"):
                     self.label = None
                     return None
-                return SymDF(self.uni, self.cols, self.present, None, self.name + "_ri", self.order)
+                out = SymDF(self.uni, self.cols, self.present, None, self.name + "_ri", self.order)
+                for extra in ("concat_parts", "melt_values"):
+                    if hasattr(self, extra):
+                        setattr(out, extra, getattr(self, extra))
+                return out
             raise Unsupported("reset_index(drop=False)")
         if attr == "set_index":
             _assume("pandas DataFrame.set_index(col, drop=False): rows and contents unchanged, labels become the column's values")
@@ -673,7 +677,7 @@ class SymDF:
         if attr == "melt":
             _assume("pandas DataFrame.melt(id_vars, value_vars, var_name, value_name): one output row per (input row, value column), the id columns "
                     "repeated, var_name = the value column's name (dtype str), value_name = its value; blocks ordered by value column")
-            idv, vv = kwargs.get("id_vars"), kwargs.get("value_vars")
+            idv, vv = kwargs.get("id_vars") or [], kwargs.get("value_vars") or [c for c in self.cols if c not in (kwargs.get("id_vars") or [])]
             vn, valn = kwargs.get("var_name", "variable"), kwargs.get("value_name", "value")
             if not isinstance(idv, list) or not isinstance(vv, list):
                 raise Unsupported("melt arguments")
@@ -746,7 +750,13 @@ class SymDF:
             _assume("pandas DataFrame.sort_values(...): a permutation of the rows (contents and labels travel with the rows)")
             if kwargs.get("inplace"):
                 return None
-            return SymDF(self.uni, self.cols, self.present, self.label, self.name + "_sorted", ("sorted", next(_uid), args, tuple(sorted(kwargs))))
+            by = kwargs.get("by", args[0] if args else None)
+            asc = kwargs.get("ascending", True)
+            out = SymDF(self.uni, self.cols, self.present, self.label, self.name + "_sorted", ("sorted", next(_uid), by if isinstance(by, str) else tuple(by or ()), str(asc)))
+            for extra in ("concat_parts", "melt_values"):
+                if hasattr(self, extra):
+                    setattr(out, extra, getattr(self, extra))
+            return out
         raise Unsupported(f"DataFrame.{attr}")
 
 
@@ -904,7 +914,34 @@ def pd_namespace() -> pyvc.Namespace:
         d.is_empty_ctor = True
         return d
 
-    return pyvc.Namespace("pd", {"to_numeric": to_numeric, "DataFrame": dataframe})
+    @pyvc.intrinsic
+    def concat(ex, pc, env, args, kwargs):
+        frames = args[0]
+        if kwargs.get("axis", 0) != 0 or not isinstance(frames, list) or not all(isinstance(f, SymDF) for f in frames):
+            raise Unsupported("pd.concat pattern")
+        _assume("pandas.concat([a, b, ...]) (axis 0): the rows of a, then b, ...; columns by name")
+        names = list(frames[0].cols)
+        for f in frames[1:]:
+            if set(f.cols) != set(names):
+                raise Unsupported("concat of frames with different columns")
+        ar = max(f.uni.arity for f in frames)
+        uni = Universe("concat", ar + 1, [f.uni for f in frames])
+        def present(r):
+            return z_or(*[z_and(r[0] == i, f.present(r[1:1 + f.uni.arity])) for i, f in enumerate(frames)])
+        cols = {}
+        for c in names:
+            def val(r, _c=c):
+                res = to_z3(frames[-1].cols[_c].val(r[1:1 + frames[-1].uni.arity]))
+                for i in range(len(frames) - 2, -1, -1):
+                    res = z3.If(r[0] == i, to_z3(frames[i].cols[_c].val(r[1:1 + frames[i].uni.arity])), res)
+                return res
+            dts = {f.cols[c].dtype for f in frames}
+            cols[c] = Col(val, None, dts.pop() if len(dts) == 1 else "object")
+        out = SymDF(uni, cols, present, None, "concat", ("concat", next(_uid)))
+        out.concat_parts = frames
+        return out
+
+    return pyvc.Namespace("pd", {"to_numeric": to_numeric, "DataFrame": dataframe, "concat": concat})
 
 
 def install(ex: pyvc.Exec) -> None:
